@@ -103,6 +103,33 @@ def main():
         th = sorted(set(m.get("detected_by_thorough", [])) - set(m["detected_by_quick"]))
         print("| %s | %s | %s | %s | %s |" % (m["id"], m["property"], needs.replace("|", "\\|"),
                                             ", ".join(m["detected_by_quick"]) or "none", ", ".join(th) or ""))
+    if "--design" in sys.argv:
+        # rewrite section 13.6 of DESIGN.md with the table
+        import io
+        buf = io.StringIO()
+        buf.write("### 13.6 Which checks report which seeded change\n\n")
+        buf.write("Generated by `tools/mk_seed_meta.py --design` from seeded/<id>/final.json (the prescribed run on /repo, quick tier, seed 1). "
+                  "`Cxx-k`: written by a sub-agent against property Cxx (k = 1,2 first round; 3,4 second; 5,6 third); `R-Cxx-<commit>`: reverse of "
+                  "fix <commit>; `M-`: hand-made. Several changes coincide (different agents picked the same edit): C02-4 = C05-4, "
+                  "C10-4 = C11-4 = C12-2 = C12-3, C17-3 = C17-1, C19-3 = C19-1; they are kept because each was written against a different "
+                  "property. Every change is reported by the quick check of the property it was written against.\n\n")
+        buf.write("| change | what it needs to manifest | quick checks that report it |\n|---|---|---|\n")
+        for m in rows:
+            needs = " ".join((m.get("needs_to_manifest") or "").split())
+            needs = needs.split(". ")[0][:200]
+            buf.write("| %s | %s | %s |\n" % (m["id"], needs.replace("|", "\\|"), ", ".join(m["detected_by_quick"]) or "none"))
+        path = os.path.join(ROOT, "DESIGN.md")
+        text = open(path).read()
+        i = text.find("### 13.6 ")
+        if i < 0:
+            text = text.rstrip("\n") + "\n\n" + buf.getvalue()
+        else:
+            j = text.find("\n## ", i)
+            k2 = text.find("\n### ", i + 5)
+            ends = [x for x in (j, k2) if x > 0]
+            end = min(ends) if ends else len(text)
+            text = text[:i] + buf.getvalue() + text[end:]
+        open(path, "w").write(text)
     missed = [m["id"] for m in rows if not m["own_property_detected"]]
     print("\nnot reported by the check of their own property: %s" % (", ".join(missed) or "none"), file=sys.stderr)
 
